@@ -32,6 +32,9 @@ CONFIGS = {
     "cov3": ("cl0", ["MON_CLIENT=1", "MON_VARIANT=3"]),
     "trace4": ("cl0", ["MON_CLIENT=3", "MON_VARIANT=4"]),
     "strace1": ("cl0", ["MON_CLIENT=2", "MON_VARIANT=1"]),
+    # monitor control on top of must_if< Errors >::control (C05, C08)
+    "mif4": ("cl0", ["MON_MUSTIF", "MON_VARIANT=4"]),
+    "mif1": ("asan0", ["MON_MUSTIF", "MON_VARIANT=1"]),
     "ana": ("cl0", ["MON_ANA", "MON_VARIANT=0"]),      # analyze< G >() + fuel-limited monitored run on reference loop witnesses (C11)
     "lazy1": ("cl0", ["MON_VARIANT=1", "MON_LAZY=1"]),
     "lazy3": ("cl0", ["MON_VARIANT=3", "MON_LAZY=1"]),
